@@ -1,4 +1,8 @@
-use std::sync::atomic::{AtomicUsize, Ordering};
+#[cfg(grevm_verif)]
+use crate::verif::sync::AtomicUsize;
+#[cfg(not(grevm_verif))]
+use std::sync::atomic::AtomicUsize;
+use std::sync::atomic::Ordering;
 
 /// A monotonic cursor published by one scheduler coordinator.
 #[derive(Debug)]
